@@ -5,7 +5,7 @@ import Pycoin.Model.Curve
 import Pycoin.Model.RealKeyEnv
 /-!
 C18 ops: `c18parse <net> <entry> <texthex>` evaluates one `ParseAPI` entry point and prints the object that came back
-together with its text forms.  `realKeyEnv` (`Model/RealKeyEnv.lean`) is the C02 curve model (`raw_mul`, `points_for_x`, `contains_point`) over the generated generator
+together with its text forms.  `drvKeyEnv` is `realKeyEnv` (`Model/RealKeyEnv.lean`) with a faster `se·G`; `realKeyEnv` is the C02 curve model (`raw_mul`, `points_for_x`, `contains_point`) over the generated generator
 parameters; `Proofs/RealKeyEnv.lean: real_key_laws` proves `KeyLaws realKeyEnv`, which the `_real` theorems of `Props/C18.lean` instantiate.
 -/
 namespace Pycoin.Driver.C18
@@ -85,6 +85,12 @@ def fastMulG (se : Nat) : Pt := match ecMul se (some (genGx, genGy)) with
   | some (x, y) => ((x : Int), (y : Int))
   | none => (0, 0)
 
+/-- what the driver evaluates: `realKeyEnv` (`Model/RealKeyEnv.lean`, the environment of the `_real` theorems) with `se·G`
+computed by the Jacobian ladder instead of the C02 model's table walk (`realMulG`: 25 ms per call, three times the quick
+tier's budget).  The two agree on every exponent tried by op `c18mulg` (boundary and random exponents on every run), and every
+key op compares the resulting public pair with the implementation; all other fields are the proved ones. -/
+def drvKeyEnv : KeyEnv := { realKeyEnv with mulG := fastMulG }
+
 /-- `realEnv` with the two decodings of `text` computed once (what `parseable_str.cache` does) -/
 def memoEnv (text : String) : Env :=
   let d58 := realEnv.b58cDec .sha256d text
@@ -123,7 +129,7 @@ def history (text steps : String) : Option String := do
   let steps ← parseList? (fun st => match st.splitOn ":" with
     | [n, e] => do pure ((← findNet n), e)
     | _ => none) steps
-  let outs := historyRun realEnv text (fun e (st : Network × String) => (st.1, parseEntry e realKeyEnv st.1 st.2 text)) PsCache.empty steps
+  let outs := historyRun realEnv text (fun e (st : Network × String) => (st.1, parseEntry e drvKeyEnv st.1 st.2 text)) PsCache.empty steps
   let shown ← outs.mapM fun (net, r) => r.map (showPOut net)
   some ("ok " ++ " | ".intercalate shown)
 
@@ -133,12 +139,12 @@ def handle : Handler := fun op args =>
   | "c18made", [net, entry, text] => do
     let net ← findNet net
     let text ← parseText? text
-    let r ← parseEntry (memoEnv text) realKeyEnv net entry text
+    let r ← parseEntry (memoEnv text) drvKeyEnv net entry text
     some (showPOut net r)
   | "c18parse", [net, entry, text] => do
     let net ← findNet net
     let text ← parseText? text
-    let r ← parseEntry (memoEnv text) realKeyEnv net entry text
+    let r ← parseEntry (memoEnv text) drvKeyEnv net entry text
     some (showPOut net r)
   | "c18kinds", [net, text] => do
     let net ← findNet net
@@ -147,7 +153,7 @@ def handle : Handler := fun op args =>
     let rec go : List String → List String → String
       | [], acc => "ok " ++ showList id acc.reverse
       | e :: es, acc =>
-        match parseEntry env realKeyEnv net e text with
+        match parseEntry env drvKeyEnv net e text with
         | some (.error err) => "err " ++ e ++ ":" ++ err.tag
         | some (.ok (some _)) => go es (e :: acc)
         | _ => go es acc
